@@ -1,4 +1,4 @@
 From Coq Require Import ExtrOcamlBasic.
 From Coq Require Import NArith List.
-From EZK Require Import Lib.Bytes Lib.Num Model.C01 Model.C01m Model.C01n.
-Extraction "../ocaml/gen/c01.ml" n2b b2n N.of_nat N.to_nat print_uri parse_uri method_of method_name method_parse project print_dec hname_of hname_print h_insert h_iter encode_message parse_message print_display parse_display.
+From EZK Require Import Lib.Bytes Lib.Num Model.C01 Model.C01m Model.C01n Model.C01h.
+Extraction "../ocaml/gen/c01.ml" n2b b2n N.of_nat N.to_nat print_uri parse_uri method_of method_name method_parse project print_dec hname_of hname_print h_insert h_iter encode_message parse_message print_display parse_display parse_host4.
